@@ -52,6 +52,7 @@ func runFlushMode() {
 	// C06: whether flushed records can be read must not depend on where the Flush calls fall
 	longStreamCases("C06", rng.FromEnv(112))
 	convertFrameCases(rng.FromEnv(113))
+	unchangedRunCase("C06")
 }
 
 func flushCase(r *rng.R, name string, root *rootSpec, o wopts, cfg *recgen.Cfg) {
